@@ -211,6 +211,32 @@ def wl_bloom(ctx, rng, case):
                 ctx.count("programs.derived_files_checked")
             for o in ondisk_open:
                 o.close()
+        # ---- a CHECKPOINT of a live on-disk filter: the exported file holds the additions up to the export - also after the live filter
+        # went on (more additions, a clear, the close)
+        if not counting and rng.random() < 0.3:
+            live = P.BloomFilterOnDisk(sc.path("live"), est, rate)
+            try:
+                for kx, _ in hist:
+                    live.add(kx)
+                cp = sc.path("checkpoint")
+                live.export(cp)
+                with open(cp, "rb") as fh:
+                    ctx.check(fh.read() == data, "the checkpoint exported by an on-disk filter differs from the in-memory export of the same additions")
+                for how in rng.sample(["add", "add", "clear", "export elsewhere"], 3):
+                    if how == "add":
+                        live.add(rng.choice(keys) if rng.random() < 0.5 else f"later-{rng.random()}")
+                    elif how == "clear":
+                        live.clear()
+                    else:
+                        live.export(sc.path("elsewhere"))
+                    with open(cp, "rb") as fh:
+                        ctx.check(fh.read() == data, f"a file exported earlier changed when the live on-disk filter went on ({how})")
+                    ctx.counters["disagreements_checked"] += 1
+            finally:
+                live.close()
+            with open(cp, "rb") as fh:
+                ctx.check(fh.read() == data, "a file exported earlier changed when the live on-disk filter was closed")
+            ctx.count("programs.checkpoints_of_a_live_ondisk_filter")
         # ---- hex form = cells, then the footer big-endian
         hx = f.export_hex()
         want_hex = data[:-20].hex() + refimpl.BLOOM_FOOTER_BE.pack(st["est"], st["added"], st["fpr32"]).hex()
